@@ -471,6 +471,7 @@ class SoftwareSwitchBase (object):
       err.xid = 0
     if data is not None:
       err.data = data
+    err.data = _quote(err.data)
     self.send(err, connection = connection)
 
   def rx_packet (self, packet, in_port, packet_data = None):
@@ -1084,6 +1085,15 @@ class ExpireMixin (object):
                                recurring=True)
 
 
+def _quote (request):
+  """
+  The part of a refused request that fits into an error message
+
+  (The error's own length field has 16 bits, 12 of its bytes are taken.)
+  """
+  return request[:0xffff - 12]
+
+
 class OFConnection (object):
   """
   A codec for OpenFlow messages.
@@ -1189,7 +1199,7 @@ class OFConnection (object):
         self.log.error("Couldn't unpack message of type %s: %s", ofp_type, e)
         err = ofp_error(type=OFPET_BAD_REQUEST, code=OFPBRC_BAD_LEN)
         err.xid = self._extract_message_xid(message)
-        err.data = message[:message_length]
+        err.data = _quote(message[:message_length])
         self.send(err)
         io_worker.consume_receive_buf(message_length)
         continue
@@ -1254,7 +1264,7 @@ class OFConnection (object):
         message = self.io_worker.peek()
         err = ofp_error(type=OFPET_BAD_REQUEST, code=OFPBRC_BAD_TYPE)
         err.xid = self._extract_message_xid(message)
-        err.data = message[:message_length]
+        err.data = _quote(message[:message_length])
         self.send(err)
       elif reason == OFConnection.ERR_BAD_LENGTH:
         msg_obj, message_length, new_offset = info
@@ -1264,7 +1274,7 @@ class OFConnection (object):
         message = self.io_worker.peek()
         err = ofp_error(type=OFPET_BAD_REQUEST, code=OFPBRC_BAD_LEN)
         err.xid = self._extract_message_xid(message)
-        err.data = message[:message_length]
+        err.data = _quote(message[:message_length])
         self.send(err)
       elif reason == OFConnection.ERR_EXCEPTION:
         ex, raw_message, msg_obj = info
